@@ -128,6 +128,12 @@ def obligations(fn, ev=None):
     for c in fn.calls():
         if c.is_(RANGE_INDEX.pattern) and len(c.args) == 2 and "p" in c.args[1]:
             ty = fn.locals[c.args[1]["p"][0]] if isinstance(c.args[1]["p"][0], int) else ""
+            if ty == "usize" and c.is_(r"::index(_mut)?$") and len([x for x in c.args[1]["p"][1:] if x != "*"]) == 0:
+                # v[i] on a Vec/SmallVec/BStr: a call of Index::index with a scalar (slices and arrays have a MIR bounds assertion instead, see below)
+                ln = ev.length(c.args[0])
+                idx = ev.value(c.args[1])
+                yield {"kind": "scalar-index", "call": c, "block": c.block, "line": c.line, "forms": [ln - idx - lin.Lin({}, 1)], "what": "[%s] on len %s" % (idx, ln)}
+                continue
             if "Range" not in ty:
                 continue
             r = ev._range(c.args[1])
